@@ -2,6 +2,7 @@ package scen
 
 import (
 	"encoding/json"
+	"errors"
 	"fmt"
 	"math/rand/v2"
 	"os"
@@ -26,6 +27,8 @@ type LegEvent struct {
 	Key  string          `json:"key,omitempty"`
 	Val  json.RawMessage `json:"v,omitempty"` // value; "\"<delete>\"" for a delete action
 	Idx  int             `json:"idx,omitempty"`
+	// CommitErr: the commit of the apply transaction is refused (disk error)
+	CommitErr bool `json:"commit_err,omitempty"`
 }
 
 // LegOp is one callback on a resource.
@@ -100,7 +103,11 @@ func (LegacyScenario) GenCase(r *rand.Rand, prop string) interface{} {
 			var ops []LegOp
 			for i, n := 0, 1+r.IntN(3); i < n; i++ {
 				rid := pick(r, legRIDs...)
-				ops = append(ops, LegOp{RID: rid, Events: genLegEvents(r, strings.HasPrefix(rid, "test.c."), 1+r.IntN(3)), Yield: r.IntN(2)})
+				evs := genLegEvents(r, strings.HasPrefix(rid, "test.c."), 1+r.IntN(3))
+				for k := range evs {
+					evs[k].CommitErr = chance(r, 5)
+				}
+				ops = append(ops, LegOp{RID: rid, Events: evs, Yield: r.IntN(2)})
 			}
 			round = append(round, ops)
 		}
@@ -224,6 +231,10 @@ type legRun struct {
 	images int
 	evals  int
 	lastEv map[string]string // per rid: digest of the last listener event
+	// injected commit errors, by task name (guarded by h.mu)
+	failCommit  map[string]bool
+	commitFired map[string]bool
+	commitErrs  int
 }
 
 func (lr *legRun) coll(rid string) bool { return strings.HasPrefix(rid, "test.c.") }
@@ -342,7 +353,7 @@ func (lr *legRun) predict(rid string, st *legState, e LegEvent) (next legSnap, o
 func (LegacyScenario) Execute(sim *sched.Sim, ci interface{}, prop string, race bool) *Outcome {
 	c := ci.(*LegCase)
 	h := NewHist(sim)
-	lr := &legRun{c: c, sim: sim, h: h, states: map[string]*legState{}, lastEv: map[string]string{}}
+	lr := &legRun{c: c, sim: sim, h: h, states: map[string]*legState{}, lastEv: map[string]string{}, failCommit: map[string]bool{}, commitFired: map[string]bool{}}
 	lr.defM = map[string]interface{}{"a": "def"}
 	lr.defC = []interface{}{"d"}
 	for _, rid := range legRIDs {
@@ -361,7 +372,21 @@ func (LegacyScenario) Execute(sim *sched.Sim, ci interface{}, prop string, race 
 	defer func() { lr.db.Close() }()
 	res.VerifHook = sim.Yield
 	badger.VerifHook = sim.Yield
-	defer func() { res.VerifHook = nil; badger.VerifHook = nil }()
+	badger.VerifCommitFault = func() error {
+		t := sim.Current()
+		if t == nil {
+			return nil
+		}
+		h.mu.Lock()
+		defer h.mu.Unlock()
+		if lr.failCommit[t.Name] {
+			lr.failCommit[t.Name] = false
+			lr.commitFired[t.Name] = true
+			return errors.New("simulated disk error at commit")
+		}
+		return nil
+	}
+	defer func() { res.VerifHook = nil; badger.VerifHook = nil; badger.VerifCommitFault = nil }()
 
 	build := func(db *badger.DB) *miniSvc {
 		m := newMiniSvc(sim, h, "test", c.Workers)
@@ -540,7 +565,7 @@ func (LegacyScenario) Execute(sim *sched.Sim, ci interface{}, prop string, race 
 	for _, p := range sim.Panics {
 		h.Violate("C20", "panic", panicSignature(p), p)
 	}
-	out := &Outcome{Faults: map[string]int{"crash-image": lr.images}, Evals: lr.evals + h.Evals}
+	out := &Outcome{Faults: map[string]int{"crash-image": lr.images, "commit-error": lr.commitErrs}, Evals: lr.evals + h.Evals}
 	nops := 0
 	for _, r := range c.Rounds {
 		for _, p := range r {
@@ -573,8 +598,26 @@ func (lr *legRun) callback(r res.Resource, op LegOp) {
 		delete(lr.lastEv, rid)
 		lr.h.mu.Unlock()
 		pubsBefore := lr.countPubs(rid)
+		tname := ""
+		if t := lr.sim.Current(); t != nil {
+			tname = t.Name
+		}
+		if e.CommitErr {
+			lr.h.mu.Lock()
+			lr.failCommit[tname] = true
+			lr.h.mu.Unlock()
+		}
 		panicked := lr.emit(r, e)
 		lr.h.mu.Lock()
+		lr.failCommit[tname] = false
+		if lr.commitFired[tname] {
+			// the apply transaction was refused: the event must behave like
+			// one that cannot be applied (nothing published, nothing stored)
+			lr.commitFired[tname] = false
+			lr.commitErrs++
+			ok = false
+			st.after = &legSnap{present: st.present, val: jsonClone(st.val)}
+		}
 		lr.evals++
 		pubs := lr.countPubs(rid) - pubsBefore
 		listener := lr.lastEv[rid]
